@@ -281,7 +281,16 @@ fn run(v: &lite::Value) -> String {
             format!("{{\"mismatch\":{},\"detail\":\"{}\",\"q\":{},\"out\":\"{}\"}}", !mism.is_empty(), mism.join("; "), q.to_bits(), show(&t))
         }
         "S3" => {
-            let mut tl = build_tl!(S3, kfs, tm, [(0, a, f32), (1, b, i16)]);
+            let mut tl = if v.get("via_from") == "true" {
+                // keyframes that copy whole values through Animate::keyframe_from
+                let (d, dl, r, rev) = tm;
+                let mut b = S3::timeline().duration_seconds(d).delay_seconds(dl).repeat(r).reverse(rev).default_easing(tag(0));
+                for k in kfs.iter() {
+                    let src = S3 { a: conv(k.vals[0].unwrap_or(0)), untouched: 99.0, b: conv(k.vals[1].unwrap_or(0)) };
+                    b = b.keyframe(S3::keyframe_from(&src, k.pos));
+                }
+                b.build()
+            } else { build_tl!(S3, kfs, tm, [(0, a, f32), (1, b, i16)]) };
             if use_ov { tl.start_with(&S3 { a: conv(ovv[0]), untouched: conv(ovv[1]), b: conv(ovv[2]) }); }
             let prior = if s0.is_empty() { S3 { a: 777.0, untouched: 555.0, b: 77 } } else { S3 { a: conv(s0[0]), untouched: conv(s0[1]), b: conv(s0[2]) } };
             let mut t = prior.clone();
